@@ -172,3 +172,19 @@ Definition enc_handshake (h : hello) : str :=
 (* a single TLS record carrying the whole handshake message *)
 Definition enc_record (rec_hi rec_lo : N) (h : hello) : str :=
   [22; rec_hi; rec_lo] ++ enc16 (nlen (enc_handshake h)) ++ enc_handshake h.
+
+(* ---- executable well-formedness of a hello AST (reflected by Proofs.ClientHello.wf_hello_b_ok):
+        RFC 5246 7.4.1.2 shape, and every field a byte string that fits its length prefix ---- *)
+Definition bytes_b (s : str) : bool := forallb (fun c => c <? 256) s.
+Definition ext_fits_b (e : extension) : bool :=
+  (ext_type e <? 65536) && (nlen (ext_data e) <? 65536) && bytes_b (ext_data e).
+Definition wf_hello_b (h : hello) : bool :=
+  Nat.eqb (length (h_random h)) 32 && (nlen (h_session h) <=? 32) && N.even (nlen (h_ciphers h))
+  && (h_vers_hi h <? 256) && (h_vers_lo h <? 256)
+  && bytes_b (h_random h) && bytes_b (h_session h) && bytes_b (h_ciphers h) && bytes_b (h_compress h)
+  && (nlen (h_ciphers h) <? 65536) && (nlen (h_compress h) <? 256)
+  && match h_exts h with
+     | None => true
+     | Some es => forallb ext_fits_b es && (nlen (flat_map enc_ext es) <? 65536)
+     end
+  && (nlen (enc_body h) <? 16777216).
